@@ -517,6 +517,39 @@ func notFromCacheOnPaths(c *km.Ctx, s *km.Sem, site ssa.Instruction, prof ssa.Va
 		}
 	}
 	if origin == nil {
+		// handed back by a loading helper (load, 500 on error, 503 when from the cache): every way the helper
+		// can have produced the value is a load whose fromCache result is false on that path
+		if cl0, _ := callRes(prof); cl0 != nil && km.CalleeFull(cl0.Common()) != load {
+			st := c.F.At(site)
+			stopAt := func(cl *ssa.Call) bool { return km.CalleeFull(cl.Common()) == load }
+			okAll := len(st) > 0
+			why := ""
+			for _, k := range st {
+				for _, lf := range s.Leaves(k, fn, nil, prof, stopAt, 2) {
+					lc, idx := callRes(lf.Val)
+					if km.IsNilConst(lf.Val) {
+						continue
+					}
+					if lc == nil || idx != 0 || km.CalleeFull(lc.Common()) != load {
+						okAll, why = false, "profile of unknown origin: "+km.ValStr(lf.Val)
+						continue
+					}
+					good := false
+					for _, f := range lf.K.List() {
+						if c2, i2 := callRes(f.X); f.Op == token.ILLEGAL && !f.Pol && c2 == lc && i2 == 2 {
+							good = true
+						}
+					}
+					if !good {
+						okAll, why = false, "profile loaded at "+c.P.InstrPos(lc)+" reaches the save on a path where fromCache may be true"
+					}
+				}
+			}
+			if okAll {
+				return true, "every load behind the helper result has fromCache == false"
+			}
+			return false, why
+		}
 		return false, "profile of unknown origin: " + km.ValStr(prof)
 	}
 	notCached := km.Prim{Name: "fromCache == false", Direct: func(f km.Fact) bool {
